@@ -32,6 +32,7 @@ func checkC20(c *Ctx) {
 	c.Rule("C20/R7", "every in-repo fs.Writer.CloseWithError discards: it never publishes the file and, where the file already exists on disk, removes it")
 
 	c.Rule("C20/R9", "a file without benchmark lines fails the upload: the function that stores one file returns success only where that file's record count is known to be non-zero (or returns the count and every caller tests it)")
+	c.Rule("C20/R14", "every label of an accepted record is queued: no return of Upload.insertLabel that can be nil is reachable without the append to the pending label arguments")
 	c.Rule("C20/R13", "a record the upload accepts is kept: every path of Upload.InsertRecord to a nil return passes a store into the pending insert arguments")
 	c.Rule("C20/R12", "what is indexed is what is stored, all of it: the indexing reader reads from io.TeeReader(part, file-store writer), and the part is handed over as it came from the multipart reader")
 	c.Rule("C20/R11", "server metadata cannot be overridden by content: every benchmark reader storage/app makes for an uploaded part receives the server's labels through AddLabels on every path before its first Next")
@@ -44,6 +45,7 @@ func checkC20(c *Ctx) {
 	c20ServerLabels(c, p)
 	c20WholePartStored(c, p)
 	c20RecordKept(c, p)
+	c20LabelKept(c, p)
 	if c.Tier == "thorough" && c.override == nil {
 		if p2, err := load(c, loadOpts{tags: "appengine"}, pats...); err == nil {
 			c20Dropped(c, p2)
